@@ -2,6 +2,8 @@ package state_test
 
 import (
 	"fmt"
+
+	"github.com/ElrondNetwork/elrond-go/data"
 	"strings"
 	"testing"
 	"time"
@@ -114,7 +116,8 @@ func verifC10Run(rt *rapid.T, c *kit.Case, snapshotDir func() string) {
 	forcedSeen := uint32(0)  // checkpoints forced by Commit (holder full), detected through the counter
 	maxCheckpointSeq := -1   // newest root (commit order) that has been checkpointed, explicitly or forced
 	lastSnapshotSeq := -1    // root of the last snapshot
-	poisoned := false        // the last snapshot's root is older than a root checkpointed before it
+	poisoned := false        // the last snapshot database was opened for a root older than a root checkpointed before
+	var lastSnapshotDB data.SnapshotDbHandler // database of the last snapshot that opened a new one
 	noteForced := func() {
 		// called when the system is quiet: the counter tells whether some Commit since the last call forced a
 		// checkpoint; it is attributed to the newest root (an upper bound, so poisoning is never under-estimated)
@@ -176,11 +179,7 @@ func verifC10Run(rt *rapid.T, c *kit.Case, snapshotDir func() string) {
 		c.Class(req.kind + "-of-" + req.tag)
 		s.logf("%s(%x %s)", req.kind, req.root.root[:2], req.tag)
 		if req.kind == "snapshot" {
-			poisoned = maxCheckpointSeq > req.root.seq
 			lastSnapshotSeq = req.root.seq
-			if poisoned {
-				c.Class("snapshot-of-root-older-than-a-checkpointed-root")
-			}
 			fx.Adb.SnapshotState(verifSBCopy(req.root.root))
 		} else {
 			if req.root.seq > maxCheckpointSeq {
@@ -233,9 +232,31 @@ func verifC10Run(rt *rapid.T, c *kit.Case, snapshotDir func() string) {
 		noteForced()
 
 		// oracle
+		sdb := fx.Tsm.GetSnapshotThatContainsHash(req.root.root)
+		if req.kind == "snapshot" && sdb != nil {
+			if sdb == lastSnapshotDB {
+				// takeSnapshot found the root in the last snapshot database (an earlier checkpoint put it there) and
+				// did nothing ("snapshot for rootHash already taken"): the request is served by that database, which
+				// keeps its class
+				c.Class("snapshot-served-by-existing-database")
+			} else {
+				// a new database was opened. It is in the known class if some root newer than the snapshotted one
+				// was checkpointed before (explicitly, or forced by a Commit - also one of this round's burst,
+				// whose checkpoint request may have overtaken the snapshot request: upper bound)
+				lastSnapshotDB = sdb
+				poisoned = maxCheckpointSeq > req.root.seq
+				if poisoned {
+					c.Class("snapshot-of-root-older-than-a-checkpointed-root")
+				}
+			}
+		}
+		servedByLastDB := req.kind == "checkpoint" || sdb == lastSnapshotDB
 		keyKind := req.kind
-		if req.kind == "checkpoint" && poisoned {
+		if servedByLastDB && poisoned {
 			if verifSBKnown(verifC10KeyOlderSnapshot) {
+				if sdb != nil {
+					sdb.DecreaseNumReferences()
+				}
 				c.Excluded(verifC10KeyOlderSnapshot)
 				continue
 			}
@@ -247,7 +268,6 @@ func verifC10Run(rt *rapid.T, c *kit.Case, snapshotDir func() string) {
 			}
 			return "C10:" + keyKind + ":" + suffix
 		}
-		sdb := fx.Tsm.GetSnapshotThatContainsHash(req.root.root)
 		if sdb == nil {
 			c.Violation(key("root-not-in-any-snapshot"), "%s of %s %x finished but no snapshot database contains the root; history: %s",
 				req.kind, req.tag, req.root.root[:4], s.history())
